@@ -204,6 +204,48 @@ def claimed_bounds(fields: List[Dict[str, Any]], rows: List[Dict[str, Any]], sta
     return lo, hi
 
 
+# what ELSE the caller of append_files claims about a well-formed file: every other caller-controlled field of DataFile
+# that a manifest stores (statistics maps -- keys go through str(k) / int(k) --, checksum, record_count, size, partition)
+META = ["sizes_word_key", "nulls_space_key", "values_float_key", "sizes_none_key", "values_bool_key", "stats_true_ids", "stats_other_ids",
+        "stats_str_values", "stats_empty", "checksum_other", "checksum_true", "checksum_upper", "checksum_short", "checksum_int",
+        "count_high", "count_zero", "count_negative", "count_str", "size_negative", "partition_int_key", "partition_values",
+        "added_snapshot"]
+# the call-level claim: append_files(files, _statistics_computed_here=True) -- "these statistics need no verification"
+TRUSTED_STATS = ["shifted", "narrow", "swapped_ids"]
+
+
+def meta_kwargs(meta: Optional[str], fields: List[Dict[str, Any]], full: str, nrows: int) -> Dict[str, Any]:
+    """DataFile keyword arguments of the claim `meta` (deterministic)."""
+    import hashlib
+    ids = [f["id"] for f in fields]
+    true_sum = hashlib.sha256(open(full, "rb").read()).hexdigest() if os.path.exists(full) else "0" * 64
+    return {
+        None: {},
+        "sizes_word_key": {"column_sizes": {"abc": 1}},
+        "nulls_space_key": {"null_value_counts": {"x y": 3}},
+        "values_float_key": {"value_counts": {1.5: 3}},
+        "sizes_none_key": {"column_sizes": {None: 1, ids[0]: 2}},
+        "values_bool_key": {"value_counts": {True: 1}},
+        "stats_true_ids": {"column_sizes": {i: 10 for i in ids}, "value_counts": {i: nrows for i in ids}, "null_value_counts": {i: 0 for i in ids}},
+        "stats_other_ids": {"column_sizes": {97: 10}, "value_counts": {str(ids[0]): 5}, "null_value_counts": {-3: 7}},
+        "stats_str_values": {"column_sizes": {ids[0]: "x"}, "value_counts": {ids[0]: None}},
+        "stats_empty": {"column_sizes": {}, "value_counts": {}, "null_value_counts": {}},
+        "checksum_other": {"checksum": "00" * 32},
+        "checksum_true": {"checksum": true_sum},
+        "checksum_upper": {"checksum": true_sum.upper()},
+        "checksum_short": {"checksum": "zz"},
+        "checksum_int": {"checksum": 12345},
+        "count_high": {"record_count": 100},
+        "count_zero": {"record_count": 0},
+        "count_negative": {"record_count": -4},
+        "count_str": {"record_count": "7"},
+        "size_negative": {"file_size_in_bytes": -5},
+        "partition_int_key": {"partition_values": {1: 1}},
+        "partition_values": {"partition_values": {"p": 1, "q": None}},
+        "added_snapshot": {"added_snapshot_id": 12345, "sequence_number": 999},
+    }[meta]
+
+
 FILE_KINDS_BAD = ["missing", "avro", "orc_declared", "noncanonical", "reordered", "retyped", "nullability", "extra_col", "garbage"]
 ENDS = ["commit", "commit", "commit", "commit", "rollback", "abandon", "commit_fails"]
 
@@ -305,6 +347,21 @@ def gen_tx_case(rng, ntx: int) -> Dict[str, Any]:
                 c["fault"] = copy.deepcopy(r2.choice(PROTECT_SPECS))
             else:
                 c["collecting"] = r2.choice(COLLECTING)
+    # the other caller-supplied fields of pre-built DataFiles (META) and the call-level "statistics computed here" claim:
+    # again from a generator of their own
+    r3 = random.Random(seed ^ 0xC1A1)
+    for tx in txs:
+        for c in tx["calls"]:
+            if c["op"] != "files":
+                continue
+            for f in c["files"]:
+                if f["kind"] in ("good", "layout") and r3.random() < 0.3:
+                    f["meta"] = r3.choice(META)
+            if r3.random() < 0.15:
+                c["trusted"] = True
+                good = [f for f in c["files"] if f["kind"] == "good"]
+                if good and not any(f.get("stats") in TRUSTED_STATS for f in good):
+                    r3.choice(good)["stats"] = r3.choice(TRUSTED_STATS)
     return {"kind": "tx", "fields": fields, "txs": txs, "seed": seed}
 
 
@@ -314,8 +371,10 @@ def tx_case_json(case: Dict[str, Any]) -> Dict[str, Any]:
         calls = []
         for c in tx["calls"]:
             if c["op"] == "files":
-                calls.append({"op": "files", "files": [{"kind": f["kind"], "rows": [enc_record(r) for r in f.get("rows", [])],
+                calls.append({"op": "files", **({"trusted": True} if c.get("trusted") else {}),
+                              "files": [{"kind": f["kind"], "rows": [enc_record(r) for r in f.get("rows", [])],
                                                         **({"stats": f["stats"]} if f.get("stats") else {}),
+                                                        **({"meta": f["meta"]} if f.get("meta") else {}),
                                                         **({"ref": list(f["ref"])} if f.get("ref") else {}),
                                                         **({"layout": f["layout"]} if f.get("layout") else {})} for f in c["files"]]})
             else:
@@ -335,8 +394,10 @@ def tx_case_unjson(j: Dict[str, Any]) -> Dict[str, Any]:
         calls = []
         for c in tx["calls"]:
             if c["op"] == "files":
-                calls.append({"op": "files", "files": [{"kind": f["kind"], "rows": [dec_record(r) for r in f.get("rows", [])],
+                calls.append({"op": "files", **({"trusted": True} if c.get("trusted") else {}),
+                              "files": [{"kind": f["kind"], "rows": [dec_record(r) for r in f.get("rows", [])],
                                                         **({"stats": f["stats"]} if f.get("stats") else {}),
+                                                        **({"meta": f["meta"]} if f.get("meta") else {}),
                                                         **({"ref": list(f["ref"])} if f.get("ref") else {}),
                                                         **({"layout": f["layout"]} if f.get("layout") else {})} for f in c["files"]]})
             else:
@@ -417,8 +478,10 @@ def build_file(root: str, fields: List[Dict[str, Any]], spec: Dict[str, Any], na
     if kind == "noncanonical":
         path = f"/data//{name}{ext}"
     claim_lo, claim_hi = claimed_bounds(spec.get("layout") or fields, rows_seen, spec.get("stats")) if foot is not None else (None, None)
-    df = DataFile(file_path=path, file_format=fmt, partition_values={}, record_count=max(1, len(spec["rows"])), file_size_in_bytes=size,
-                  lower_bounds=copy.deepcopy(claim_lo), upper_bounds=copy.deepcopy(claim_hi))
+    kw: Dict[str, Any] = dict(file_path=path, file_format=fmt, partition_values={}, record_count=max(1, len(spec["rows"])), file_size_in_bytes=size,
+                              lower_bounds=copy.deepcopy(claim_lo), upper_bounds=copy.deepcopy(claim_hi))
+    kw.update(meta_kwargs(spec.get("meta"), spec.get("layout") or fields, full, len(rows_seen)))
+    df = DataFile(**kw)
     return df, rel, rows_seen, foot, (claim_lo, claim_hi)
 
 
@@ -486,12 +549,16 @@ def run_tx_case(case: Dict[str, Any], root: str, filters_per_col: int = 1) -> Di
                         dfs.append(df)
                         paths.append(rel)
                         cev["files"].append({"kind": spec["kind"], "footer": foot, "rows": rows_seen, "path": rel, "claim": claim,
-                                             "stats": spec.get("stats", "none"), **({"ref": list(spec["ref"])} if spec.get("ref") else {})})
+                                             "stats": spec.get("stats", "none"), "meta": spec.get("meta"), **({"ref": list(spec["ref"])} if spec.get("ref") else {})})
                         mine += [(opaque if set(r) == set(opaque) else {k: "opaque" for k in r}, r) for r in rows_seen]
                     announced = announce(root, call.get("collecting"))
                     b = observe(root)               # the files were put there by the caller, before the call
                     inj.arm(call.get("fault"))
-                    t.append_files(dfs)
+                    if call.get("trusted"):         # a caller claiming that the statistics need no verification
+                        cev["trusted"] = True
+                        t.append_files(dfs, _statistics_computed_here=True)
+                    else:
+                        t.append_files(dfs)
                 else:
                     arg = call["arg"]
                     schema = build_schema(call.get("build", "fresh"), call["sid"], arg, fields, handle) if arg is not None else None
@@ -559,7 +626,7 @@ def run_tx_case(case: Dict[str, Any], root: str, filters_per_col: int = 1) -> Di
             if diff:
                 violations.append((f"tx-reject-trace:{tx['end']}", f"tx {ti} [{label}] ended with '{tev['commit']}' but {diff}"))
         tev["nsnaps"] = len(after["snapshots"])
-        tev["files"] = [{"schema": f["schema"], "rows": f["rows"], "lo": f["lo"], "hi": f["hi"], "path": f["path"]} for f in after["files"]]
+        tev["files"] = [{"schema": f["schema"], "rows": f["rows"], "lo": f["lo"], "hi": f["hi"], "path": f["path"], "meta": f.get("meta")} for f in after["files"]]
         tev["store"] = len([x for x in after["store"] if x.startswith("auto_")])
         tev["cache"] = observe_cache(handle)
         tev["cache_extra"] = observe_cache(extra) if extra is not None else None
@@ -569,8 +636,22 @@ def run_tx_case(case: Dict[str, Any], root: str, filters_per_col: int = 1) -> Di
             got = fresh.scan()
         except Exception as e:                       # noqa: BLE001
             got = None
-            violations.append(("tx-scan-raises", f"tx {ti} [{label}]: full scan raises {type(e).__name__}: {str(e)[:200]}"))
+            metas = sorted({f["meta"] for c in tev["calls"] if c.get("outcome") == "accepted" for f in c.get("files", []) if f.get("meta")})
+            violations.append(("tx-scan-raises" + (":prebuilt-claims" if metas else ""),
+                               f"tx {ti} [{label}]: full scan raises {type(e).__name__}: {str(e)[:200]}"
+                               + (f" (accepted pre-built files of this transaction came with caller-supplied {metas})" if metas else "")))
         tev["scan"] = "raises" if got is None else len(got)
+        if got is not None and not violations:
+            # the count-only read of the same content (Table.row_count: "instead of len(table.scan())")
+            metas = sorted({f["meta"] for c in tev["calls"] if c.get("outcome") == "accepted" for f in c.get("files", []) if f.get("meta")})
+            try:
+                n = fresh.row_count()
+                if n != len(got):
+                    violations.append(("tx-row-count" + (":prebuilt-claims" if metas else ""),
+                                       f"tx {ti} [{label}]: row_count() is {n!r}, the full scan returns {len(got)} rows"
+                                       + (f" (accepted pre-built files came with caller-supplied {metas})" if metas else "")))
+            except Exception as e:                   # noqa: BLE001
+                violations.append(("tx-row-count-raises", f"tx {ti} [{label}]: row_count() raises {type(e).__name__}: {str(e)[:160]}"))
         if got is not None and not violations:
             try:                                     # "later scans": also through the handle that ran the transaction
                 got_h = handle.scan()
@@ -605,10 +686,28 @@ def run_tx_case(case: Dict[str, Any], root: str, filters_per_col: int = 1) -> Di
                         tev["filters"] = tev.get("filters", 0) + 1
                         if not _same_rows(res, want):
                             claims = sorted({f.get("stats", "none") for c in tev["calls"] for f in c.get("files", [])} - {"none"})
-                            violations.append(("tx-mis-filter" + (":prebuilt-bounds" if claims else ""),
+                            flagged = any(c.get("trusted") for c in tev["calls"])
+                            violations.append(("tx-mis-filter" + (":prebuilt-bounds-computed-here-flag" if claims and flagged else ":prebuilt-bounds" if claims else ""),
                                                f"tx {ti}: scan(filter={col} {op} {lit!r:.80}) returns {len(res)} rows, the full scan holds {len(want)} matching rows"
                                                + (f" (pre-built files of this transaction came with caller-supplied bounds: {claims})" if claims else "")))
                             break
+        # what the manifests of the current snapshot STORE about each file besides its bounds, read without the library:
+        # statistics keys that are no integers make every read of the table raise, a checksum that is not the file's makes
+        # scans raise, the record counts are what row_count() sums
+        import re
+        for f in after["files"]:
+            m = f.get("meta") or {}
+            wrong = []
+            if any(not re.fullmatch(r"-?[0-9]+", str(k)) for k in m.get("stat_keys", [])):
+                wrong.append(f"statistics keys {m['stat_keys']!r:.80}")
+            if m.get("checksum") is not None and m.get("sha256") is not None and m["checksum"] != m["sha256"]:
+                wrong.append(f"checksum {m['checksum']!r:.40} (the file's SHA-256 is {m['sha256'][:16]}...)")
+            if f["schema"] and m.get("count") != len(f["rows"]):
+                wrong.append(f"record_count {m.get('count')!r} (the file holds {len(f['rows'])} rows)")
+            if wrong and committed and not violations:
+                violations.append(("tx-stored-claim:prebuilt-claims", f"tx {ti} [{label}] committed: the manifest entry of {f['path']} stores "
+                                                                     + "; ".join(wrong) + " -- an unverified caller claim"))
+                break
         trace.append(tev)
         if violations:
             break
@@ -652,6 +751,15 @@ def shrink_tx(case: Dict[str, Any], fails) -> Dict[str, Any]:
                             d = copy.deepcopy(c)
                             del d["txs"][i]["calls"][j]["files"][k]["stats"]
                             yield d
+                    for k, f in enumerate(call["files"]):
+                        if f.get("meta"):
+                            d = copy.deepcopy(c)
+                            del d["txs"][i]["calls"][j]["files"][k]["meta"]
+                            yield d
+                    if call.get("trusted"):
+                        d = copy.deepcopy(c)
+                        del d["txs"][i]["calls"][j]["trusted"]
+                        yield d
                     for k, f in enumerate(call["files"]):
                         if len(f.get("rows", [])) > 1:
                             d = copy.deepcopy(c)
